@@ -45,17 +45,42 @@ def subject_texts(tree, tseed, extra=(), limit=8, big=0):
     return dsl.bounded_texts(tree, res) or ['']
 
 
-STATES = ['plain', 'plain', 'compile', 'gcp_keep', 'gcp_discard']
+STATES = ['plain', 'plain', 'compile', 'gcp_keep', 'gcp_discard', 'worn', 'worn_compiled', 'worn_long']
+
+
+def wear(p, n):
+    """A long history of ordinary matching calls on the same instance (results are discarded): an instance that has answered a
+    thousand questions must answer the next one like a new one."""
+    for i in range(n):
+        k = i % 5
+        if k == 0:
+            p.has_match('a\nb')
+        elif k == 1:
+            p.get_matches('x1 \n-')
+        elif k == 2:
+            for _ in p.iterate_matches('ab'):
+                break                       # a generator abandoned after its first item
+        elif k == 3:
+            p.is_exact_match('')
+        else:
+            p.split_by_match('a b')
 
 
 def apply_state(p, state):
-    """Put the instance into one of the cache states the API can produce (results must not depend on it)."""
+    """Put the instance into one of the states the API can produce (results must not depend on it)."""
     if state == 'compile':
         p.compile()
     elif state == 'gcp_keep':
         p.get_compiled_pattern(discard_after=False)
     elif state == 'gcp_discard':
         p.get_compiled_pattern(discard_after=True)
+    elif state == 'worn':
+        wear(p, 130)
+    elif state == 'worn_compiled':
+        p.compile()
+        wear(p, 130)
+    elif state == 'worn_long':
+        wear(p, 1100)
 
 
 def behaviour(p, text):
